@@ -1,6 +1,9 @@
 target('c39_boot', 'engines/comp/c39_boot.cpp',
        quick=dict(cases=40000, size=60), thorough=dict(cases=2000000, size=80))
-prop('C39', ['c39_boot'], 'comp',
+# the same Case / run() under libFuzzer (engines/comp/run_fuzz.py builds and runs it)
+target('c39_fuzz', 'engines/comp/c39_fuzz.cpp', kind='fuzz',
+       quick=dict(runs=40000, max_seconds=60, max_len=1024), thorough=dict(runs=3000000, max_seconds=900, max_len=1024))
+prop('C39', ['c39_boot', 'c39_fuzz'], 'comp',
      rule='rapidcheck generates a configuration (page size 16 / 64 / 1024 x white list {one aligned region, two regions with a gap, a region '
           'not aligned to the page, a region ending at the top of the address space, a region starting at 0}) and a sequence of up to 60 '
           'groups of: control point writes (opcodes 0..10, 0x80, 0xff; nominal, truncated, over-long and empty values in exact-size heap '
@@ -8,7 +11,7 @@ prop('C39', ['c39_boot'], 'comp',
           'control point / data read-outs (with a failing public_read_mem now and then) and completions of the oldest pending flash operation. '
           'A case is non-trivial if an address used lies within one page of a region boundary or a control point value has a length other '
           'than the nominal one of its opcode; distinct = distinct serialised cases.',
-     technique='model-based property testing (rapidcheck) of bootloader::controller with the harness as user handler: logged handler calls are checked against the white list, a reference flash image and a reference checksum chain; ASan guards the control point value',
+     technique='model-based property testing (rapidcheck; the same oracle under libFuzzer in engines/comp/c39_fuzz.cpp) of bootloader::controller with the harness as user handler: logged handler calls are checked against the white list, a reference flash image and a reference checksum chain; ASan guards the control point value',
      level_text='every range handed to start_flash / read_mem / checksum32 / public_read_mem / public_checksum32 must lie in one white-listed region; '
                 'every flashed page must equal the memory before overlaid with exactly the octets the client sent for those addresses (Start Flash '
                 'address + stream offset), completed / flushed pages must have been handed to start_flash, no data is taken without a Start Flash '
